@@ -37,6 +37,7 @@ type GwEpoch struct {
 // BusEntry is a telegram the gateway forwarded to the bus.
 type BusEntry struct {
 	ID      int
+	Raw     []byte // the cEMI frame as it came in
 	Channel uint8
 	Seq     uint8
 	At      Stamp
@@ -334,7 +335,7 @@ func (g *Gateway) handle(raw []byte, from *net.UDPAddr, ref uint64) {
 		}
 		if g.tcp != nil {
 			// a TCP connection carries no acknowledgements and no sequence numbers
-			g.Bus = append(g.Bus, BusEntry{ID: cemiID(f.CEMI), Channel: f.Channel, Seq: f.Seq, At: g.e.Stamp()})
+			g.Bus = append(g.Bus, BusEntry{ID: cemiID(f.CEMI), Raw: append([]byte(nil), f.CEMI...), Channel: f.Channel, Seq: f.Seq, At: g.e.Stamp()})
 			if g.OnBus != nil {
 				g.OnBus(append([]byte(nil), f.CEMI...))
 			}
@@ -361,7 +362,7 @@ func (g *Gateway) handle(raw []byte, from *net.UDPAddr, ref uint64) {
 				g.e.Probe("gw-refused-a-telegram")
 				break
 			}
-			g.Bus = append(g.Bus, BusEntry{ID: cemiID(f.CEMI), Channel: f.Channel, Seq: f.Seq, At: g.e.Stamp()})
+			g.Bus = append(g.Bus, BusEntry{ID: cemiID(f.CEMI), Raw: append([]byte(nil), f.CEMI...), Channel: f.Channel, Seq: f.Seq, At: g.e.Stamp()})
 			g.e.S.Logf("gw bus id=%d seq=%d", cemiID(f.CEMI), f.Seq)
 			if g.OnBus != nil {
 				g.OnBus(append([]byte(nil), f.CEMI...))
